@@ -36,7 +36,9 @@ def oracleC10 (ops : List (List String)) (rs : List FReply) : Bool :=
     | some s => s.seq == i + 1 && s.sampleBytes b == some (ws.map (·.data)) && !ws.isEmpty &&
         -- "none ... altered": the decode and presentation time each sample is described with are the submitted ones
         describedDts s.tfdt (s.rows.map fun r => r.duration.getD 0) == ws.map (·.dts) &&
-        (s.rows.map (·.cto)) == ws.map (fun w => some ((w.pts : Int) - (w.dts : Int)))
+        (s.rows.map (·.cto)) == ws.map (fun w => some ((w.pts : Int) - (w.dts : Int))) &&
+        -- ... and so is the sync flag it was submitted with (also for a segment without any key frame)
+        (s.rows.map fun r => r.flags.map nonSync) == ws.map (fun w => some (!w.sync))
   -- replies: write rejected iff dts < last accepted; flush with nothing queued yields none
   let walk := (List.zip ops rs).foldl (fun (acc : Bool × Option Nat × Nat) (op, r) =>
     let (ok, last, queued) := acc
@@ -54,7 +56,7 @@ def oracleC10 (ops : List (List String)) (rs : List FReply) : Bool :=
 def projC10 (rs : List FReply) : String :=
   " ".intercalate (rs.map fun r => match r with
     | .seg b => (match parseSegment b with
-        | some s => s!"seg{s.seq}:{(s.sampleBytes b).map (·.map hex)}"
+        | some s => s!"seg{s.seq}:{(s.sampleBytes b).map (·.map hex)}:{s.rows.map fun r => r.flags.map nonSync}"
         | none => "seg:unreadable")
     | .init _ => "init"
     | .bool _ => "b" | .num _ => "n"
